@@ -14,12 +14,14 @@ deriving DecidableEq, Repr
 inductive Val where
   | int (i : Int)
   | none
+  | nan                                   -- float NaN (result of a guarded division by zero)
   | dict (kvs : List (Key × Val))          -- insertion-ordered
   | list (xs : List Val)
   | obj (attrs : List (Key × Val))         -- attribute name stored as Key.str
 
 inductive Err where
   | keyError | indexError | attributeError | typeError
+  | zeroDiv | valueError | fault
 deriving DecidableEq, Repr
 
 abbrev KVs := List (Key × Val)
